@@ -39,6 +39,21 @@ func (l lrCfg) value() float64 {
 var c17LRs = []lrCfg{{nilCfg: true}, {lr: 0.01}, {lr: 0.5}, {lr: 0}, {lr: -0.3}}
 
 func checkC17(c *core.Ctx) {
+	defer gridC17(c)
+	defer soakC17(c)
+	// length sweep (see checks_sweep.go)
+	for si, sh := range []func(int) []int{shL, sh1L, shL1, shL2, sh2L} {
+		for _, L := range sweepLengths(c.Thorough()) {
+			si, sh, L := si, sh, L
+			c.Case(fmt.Sprintf("sweep/update/s%d/L%d", si, L), L > 1, func() core.Verdict {
+				v := c17UpdateCase(sh(L), c17LRs[(L+si)%len(c17LRs)], (L+si)%3)
+				if !v.OK && !v.Skip {
+					v.Detail = fmt.Sprintf("length sweep, weight shape %v: %s", sh(L), v.Detail)
+				}
+				return v
+			})
+		}
+	}
 	shapes := enum.Shapes(4, []int{1, 2, 3})
 	if c.Thorough() {
 		shapes = enum.Shapes(5, []int{1, 2, 3})
@@ -49,77 +64,7 @@ func checkC17(c *core.Ctx) {
 			for gm := 0; gm < 3; gm++ {
 				s, l, gm := s, l, gm
 				c.Case(fmt.Sprintf("update/%v/lr%d/g%d", s, li, gm), ref.Size(s) > 1, func() core.Verdict {
-					w0 := enum.Generic(s, 501, 0.5, 3, true)
-					cc := enum.Generic(s, 502, 0.5, 3, true)
-					w := rt.Make(w0, true)
-					var expG *ref.T
-					switch gm {
-					case 0: // gradient c from w*c
-						y, err := w.Mul(rt.Make(cc, false))
-						if err != nil {
-							return core.Fail("Mul: %v", err)
-						}
-						if err := tensor.BackPropagate(y); err != nil {
-							return core.Fail("BackPropagate: %v", err)
-						}
-						expG = cc
-					case 1: // gradient 2w from w^2
-						if err := tensor.BackPropagate(w.Pow(2)); err != nil {
-							return core.Fail("BackPropagate: %v", err)
-						}
-						expG = ref.Map(w0, func(v float64) float64 { return 2 * v })
-					case 2: // two accumulated back-propagations: c + 3
-						y1, _ := w.Mul(rt.Make(cc, false))
-						y2 := w.Scale(3)
-						if err := tensor.BackPropagate(y1); err != nil {
-							return core.Fail("BackPropagate: %v", err)
-						}
-						if err := tensor.BackPropagate(y2); err != nil {
-							return core.Fail("BackPropagate: %v", err)
-						}
-						expG = ref.Map(cc, func(v float64) float64 { return v + 3 })
-					}
-					old := w
-					oldG := w.Gradient()
-					if oldG == nil {
-						return core.Fail("no gradient after back-propagation")
-					}
-					if ok, msg := core.Close(rt.Read(oldG), expG, 10); !ok {
-						return core.Fail("gradient before update: %s", msg)
-					}
-					ptr := w
-					if err := l.opt().Update(&ptr); err != nil {
-						return core.Fail("Update: %v", err)
-					}
-					exp := ref.New(s)
-					for i := range exp.V {
-						exp.V[i] = w0.V[i] - l.value()*expG.V[i]
-					}
-					if ptr == nil {
-						return core.Fail("Update replaced the tensor by nil")
-					}
-					if ok, msg := core.Close(rt.Read(ptr), exp, 10); !ok {
-						return core.Fail("updated weight (lr=%v): %s", l.value(), msg)
-					}
-					// the previous tensor object and its gradient are unchanged
-					if ok, msg := core.ExactEq(rt.Read(old), w0); !ok {
-						return core.Fail("previous tensor object changed by Update: %s", msg)
-					}
-					if old.Gradient() != oldG {
-						return core.Fail("previous tensor's gradient object was replaced by Update")
-					}
-					if ok, msg := core.Close(rt.Read(old.Gradient()), expG, 10); !ok {
-						return core.Fail("previous tensor's gradient changed by Update: %s", msg)
-					}
-					// a second Update without a new gradient must fail and replace nothing
-					before := ptr
-					if err := l.opt().Update(&ptr); err == nil {
-						return core.Fail("Update on a tensor without gradient returned no error")
-					}
-					if ptr != before {
-						return core.Fail("failed Update replaced the tensor")
-					}
-					return core.Pass()
+					return c17UpdateCase(s, l, gm)
 				})
 			}
 		}
@@ -256,6 +201,56 @@ func checkC17(c *core.Ctx) {
 			}
 			return core.Pass()
 		})
+	}
+	// the SAME tensor object stepped several times by one optimizer while its gradient keeps
+	// accumulating (micro-batches: all graphs built first, back-propagated one by one, the
+	// original tensor handed to Update after each): every Update uses the CURRENT gradient
+	for li, l := range c17LRs {
+		for _, s := range [][]int{{4}, {2, 3}, {}} {
+			l, s := l, s
+			c.Case(fmt.Sprintf("restep/%v/lr%d", s, li), true, func() core.Verdict {
+				opt := l.opt()
+				w0 := enum.Generic(s, 560, 0.5, 3, true)
+				w := rt.Make(w0, true)
+				const nb = 4
+				var ys []tensor.Tensor
+				var cs []*ref.T
+				for k := 0; k < nb; k++ {
+					cc := enum.Generic(s, uint64(570+k), 0.5, 3, true)
+					y, err := w.Mul(rt.Make(cc, false))
+					if err != nil {
+						return core.Fail("Mul: %v", err)
+					}
+					ys, cs = append(ys, y), append(cs, cc)
+				}
+				acc := ref.New(s)
+				for k := 0; k < nb; k++ {
+					if err := tensor.BackPropagate(ys[k]); err != nil {
+						return core.Fail("BackPropagate %d: %v", k, err)
+					}
+					for i := range acc.V {
+						acc.V[i] += cs[k].V[i]
+					}
+					for rep := 0; rep < 2; rep++ { // the second Update of the same tensor with an unchanged gradient gives the same tensor values
+						p := w
+						if err := opt.Update(&p); err != nil {
+							return core.Fail("Update %d of the same tensor object: %v", k, err)
+						}
+						exp := ref.New(s)
+						for i := range exp.V {
+							exp.V[i] = w0.V[i] - l.value()*acc.V[i]
+						}
+						if ok, msg := core.Close(rt.Read(p), exp, 10); !ok {
+							return core.Fail("the same tensor object handed to Update after %d accumulated back-propagations (repeat %d): result is not w - lr*(current gradient): %s", k+1, rep, msg)
+						}
+						if ok, msg := core.ExactEq(rt.Read(w), w0); !ok {
+							return core.Fail("the stepped tensor itself changed: %s", msg)
+						}
+					}
+				}
+				return core.Pass()
+			})
+		}
 	}
 	// error paths
 	for li, l := range c17LRs {
@@ -751,4 +746,81 @@ func checkC18(c *core.Ctx) {
 			}
 		}
 	}
+}
+
+// c17UpdateCase: one weight tensor of shape s with a gradient produced in one of
+// three ways, one Update; the new tensor equals w - lr*g, the previous tensor
+// object and its gradient are untouched, a second Update fails.
+func c17UpdateCase(s []int, l lrCfg, gm int) core.Verdict {
+	w0 := enum.Generic(s, 501, 0.5, 3, true)
+	cc := enum.Generic(s, 502, 0.5, 3, true)
+	w := rt.Make(w0, true)
+	var expG *ref.T
+	switch gm {
+	case 0: // gradient c from w*c
+		y, err := w.Mul(rt.Make(cc, false))
+		if err != nil {
+			return core.Fail("Mul: %v", err)
+		}
+		if err := tensor.BackPropagate(y); err != nil {
+			return core.Fail("BackPropagate: %v", err)
+		}
+		expG = cc
+	case 1: // gradient 2w from w^2
+		if err := tensor.BackPropagate(w.Pow(2)); err != nil {
+			return core.Fail("BackPropagate: %v", err)
+		}
+		expG = ref.Map(w0, func(v float64) float64 { return 2 * v })
+	case 2: // two accumulated back-propagations: c + 3
+		y1, _ := w.Mul(rt.Make(cc, false))
+		y2 := w.Scale(3)
+		if err := tensor.BackPropagate(y1); err != nil {
+			return core.Fail("BackPropagate: %v", err)
+		}
+		if err := tensor.BackPropagate(y2); err != nil {
+			return core.Fail("BackPropagate: %v", err)
+		}
+		expG = ref.Map(cc, func(v float64) float64 { return v + 3 })
+	}
+	old := w
+	oldG := w.Gradient()
+	if oldG == nil {
+		return core.Fail("no gradient after back-propagation")
+	}
+	if ok, msg := core.Close(rt.Read(oldG), expG, 10); !ok {
+		return core.Fail("gradient before update: %s", msg)
+	}
+	ptr := w
+	if err := l.opt().Update(&ptr); err != nil {
+		return core.Fail("Update: %v", err)
+	}
+	exp := ref.New(s)
+	for i := range exp.V {
+		exp.V[i] = w0.V[i] - l.value()*expG.V[i]
+	}
+	if ptr == nil {
+		return core.Fail("Update replaced the tensor by nil")
+	}
+	if ok, msg := core.Close(rt.Read(ptr), exp, 10); !ok {
+		return core.Fail("updated weight (lr=%v): %s", l.value(), msg)
+	}
+	// the previous tensor object and its gradient are unchanged
+	if ok, msg := core.ExactEq(rt.Read(old), w0); !ok {
+		return core.Fail("previous tensor object changed by Update: %s", msg)
+	}
+	if old.Gradient() != oldG {
+		return core.Fail("previous tensor's gradient object was replaced by Update")
+	}
+	if ok, msg := core.Close(rt.Read(old.Gradient()), expG, 10); !ok {
+		return core.Fail("previous tensor's gradient changed by Update: %s", msg)
+	}
+	// a second Update without a new gradient must fail and replace nothing
+	before := ptr
+	if err := l.opt().Update(&ptr); err == nil {
+		return core.Fail("Update on a tensor without gradient returned no error")
+	}
+	if ptr != before {
+		return core.Fail("failed Update replaced the tensor")
+	}
+	return core.Pass()
 }
